@@ -56,5 +56,6 @@ func (edb *EventDb) addBurnTicket(burnTicket BurnTicket) error {
 }
 
 func mergeAddBurnTicket() *eventsMergerImpl[BurnTicket] {
-	return newEventsMerger[BurnTicket](TagAddBurnTicket, withUniqueEventOverwrite())
+	// every burn has its own ticket (address, nonce): nothing to fold, all are kept
+	return newEventsMerger[BurnTicket](TagAddBurnTicket)
 }
